@@ -39,6 +39,15 @@ FinishClauses(o) ==
             /\ (IF t[3] = -1 THEN ~bundle \/ S[a] <= TolTab ELSE Close(t[3], S[a], TolTab))
             /\ (IF t[4] = -1 THEN ~bundle \/ T.cfg.gravity = 0 ELSE Close(t[4], G[a], TolTab))
         THEN {} ELSE {"PressureTablePrintsTheLedger"})
+  \* the per-step pressure-drop dump: its last row shows the accumulated
+  \* ledger of all regions, part by part, and in every row the total is the
+  \* sum of the three parts (the row that deviates most is logged)
+  \cup (IF o.pdump = <<>> \/ \A a \in Asm :
+            LET t == o.pdump[a] IN
+            /\ Close(t[1], F[a] + S[a] + G[a], TolP)
+            /\ Close(t[2], F[a], TolP) /\ Close(t[3], S[a], TolP)
+            /\ Close(t[4], G[a], TolP) /\ Close(t[5], t[6], TolP)
+        THEN {} ELSE {"PressureDumpShowsTheLedger"})
 TrFinish == Live("Finish") /\ UNCHANGED tvars /\ Note(FinishClauses(Ev))
 TrCrash == Live("Crash") /\ UNCHANGED tvars /\ Note({"SweepRuns"})
 Report == /\ ~done /\ l > Len(T.ev)
